@@ -37,17 +37,28 @@ def run(ctx):
         pre = r.choice([b"", b"l1\n", b"l1\nl2\n"])
         s = pre + text + MARK + b"%d\n" % code
         cases.append("out o 1 %s %s" % (hexs(b"n1"), outeng.gen_chunking(r, s))); meta.append((code, "stream"))
+    # the status line after unterminated output as long as the 128 KiB buffer (and longer): the head of such a line may be lost,
+    # the status must not (judged by S only: lines over 128 KiB are outside the output model's domain)
+    for N in ((131050, 131061, 131066, 131071, 131072, 131073, 262139) if quick else list(range(131040, 131080)) + [262130, 262139, 262144, 400000]):
+        code = 3 + N % 5
+        sdata = bytes(97 + (k % 26) for k in range(N)) + MARK + b"%d\n" % code
+        items = ["A" + hexs(sdata[k:k + 4000]) for k in range(0, len(sdata), 4000)] + ["E"]
+        cases.append("out o 1 %s %s" % (hexs(b"n1"), "/".join(items))); meta.append((code, "longtail"))
     impl = out.run_impl(cases)
-    model = out.run_model(cases)
+    short = [k for k, mt in enumerate(meta) if mt[1] != "longtail"]
+    msub = out.run_model([cases[k] for k in short])
+    model = [None] * len(cases)
+    for k, mline in zip(short, msub):
+        model[k] = mline
     for c, (code, kind), i, m in zip(cases, meta, impl, model):
         stats["marker_lines"] += 1
         if i.startswith(("CRASH", "HANG")):
-            viol("input", c, m, i, "implementation fault on a marker line")
+            viol("input", c[:2000], m, i, "implementation fault on a marker line")
             continue
         got = int(i.split(" ")[0][3:])
         if got != code:
-            viol("input", c, "rc=%d" % code, i[:200], "the remote command returned %d (marker line) but pdsh recorded %d; input %r" % (code, got, unhex(c.split(" ")[1])[:80] if kind == "line" else c[:120]))
-        elif i != m:
+            viol("input", c[:2000], "rc=%d" % code, i[:200], "the remote command returned %d (marker line) but pdsh recorded %d; input %r" % (code, got, unhex(c.split(" ")[1])[:80] if kind == "line" else c[:120]))
+        elif m is not None and i != m:
             viol("no-failing-input-found", c, m[:300], i[:300], "implementation and model disagree on a marker line", corr="out: rc and calls")
     # ---- B. aggregation over outcome vectors, whole program under the scheduler, all orders for small vectors ----
     eng = schedeng.Sched(ctx)
@@ -188,7 +199,9 @@ def run(ctx):
                 except OSError:
                     pass
     # refused arguments -> 1
-    for args in (["-w", "h1", "-R", "nosuchmodule", "true"], ["-w", "h[1-", "true"]):
+    # (the last two are refused by a module's own argument check - the exec transport has no connect time-out -, not by opt.c)
+    for args in (["-w", "h1", "-R", "nosuchmodule", "true"], ["-w", "h[1-", "true"], ["-R", "exec", "-t", "5", "-w", "h1", "true"],
+                 ["-R", "exec", "-t", "5", "-S", "-w", "h[1-2]", "sh", "-c", "exit 0"]):
         rc, o, e = real.run(args)
         stats["exec_runs"] += 1
         if rc != 1:
